@@ -1,2 +1,194 @@
-(* C03 - placeholder, theorems follow *)
-From Mkdb Require Import Spec.HistObs.
+(* C03 - A crash while a statement is being logged leaves a row-prefix state.
+   Statements only (proofs: Proofs/WalCodecProofs.v for the bytes, Proofs/CrashPrefix.v and
+   Proofs/CrashHist.v for the states).
+
+   Two layers:
+   (1) bytes: wal.flush issues Write(len), Write(body)[, Sync] per record; a crash before any of
+       these calls - with the log cut at the last write or at the last fsync - leaves a file that
+       wal.read reads back as the old records plus the first i records of the batch, no error
+       (C03_reader_prefix, C03_reader_prefix_synced, C03_reader_entries);
+   (2) states: event `EvCrashInLog st j` of Model/Engine.v = the statement runs, the first j
+       records of its batch reach the log, the process dies, InitStorage runs. The recovered
+       database is the state before the statement plus the first i row operations of the
+       statement, in the statement's own order, where i = `started (op_sizes s st) j` is the
+       number of row operations whose first record is among the j (C03_prefix_state). A row
+       operation logs one record (INSERT / UPDATE / DELETE of one row), none (UPDATE of a row that
+       is gone), or two (an INSERT that moves the root of its table: insert record, then the
+       sys_pages update record). If the cut falls between those two, redoRootMove has already
+       rewritten the catalog row while redoing the insert, so the table content is complete; the
+       recovered state differs from the state after i operations ONLY in the LSN stamped on that
+       one sys_pages leaf (the insert record's LSN instead of the update record's):
+       `prefix_state a S` = Good a, a and S equal up to dirty flags and page LSNs (`seqL`), and
+       either equal up to dirty flags alone (`seq`), or so after re-stamping one catalog cell with
+       the bytes it already holds.
+   Hypotheses as in C02 (`hist_ok`: failing statements change no page - excludes F11a-c; root
+   moves rewrite the catalog row redo would find). *)
+From Coq Require Import List NArith ZArith String Arith.
+From Mkdb Require Import Model.Engine Model.WalCodec Proofs.WalCodecProofs Proofs.TreeProofs Proofs.StoreInv
+  Proofs.CrashBase Proofs.CrashPages Proofs.CrashRedo Proofs.CrashLog Proofs.CrashMain Proofs.CrashPrefix
+  Proofs.CrashHist.
+Import ListNotations.
+Local Open Scope N_scope.
+
+(* ---- (1) the reader ---- *)
+Theorem C03_reader_prefix : forall fs old rs j,
+  forallb rec_ok old = true -> forallb rec_ok rs = true ->
+  exists i, (i <= length rs)%nat /\
+    wal_read (frames old ++ cut_at_write j (flush_calls fs rs)) =
+    mkWRR (old ++ firstn i rs) (frames_len (old ++ firstn i rs)) (Ok tt).
+Proof. exact wal_read_interrupted_flush. Qed.
+Print Assumptions C03_reader_prefix.
+
+Theorem C03_reader_prefix_synced : forall old rs j,
+  forallb rec_ok old = true -> forallb rec_ok rs = true ->
+  exists i, (i <= length rs)%nat /\
+    wal_read (frames old ++ cut_at_sync j (flush_calls true rs)) =
+    mkWRR (old ++ firstn i rs) (frames_len (old ++ firstn i rs)) (Ok tt).
+Proof. exact wal_read_interrupted_flush_synced. Qed.
+Print Assumptions C03_reader_prefix_synced.
+
+(* the same in terms of the engine's records (Model/Page.v walentry; rec_of_entry embeds them into
+   the codec's walrec, entry_of_rec reads them back): the log read after the crash is exactly
+   `log ++ firstn i batch` for some i, which is the log EvCrashInLog st i replays *)
+Theorem C03_reader_entries : forall fs (log batch : list walentry) j,
+  forallb rec_ok (map rec_of_entry log) = true -> forallb rec_ok (map rec_of_entry batch) = true ->
+  exists i, (i <= length batch)%nat /\
+    let r := wal_read (frames (map rec_of_entry log) ++ cut_at_write j (flush_calls fs (map rec_of_entry batch))) in
+    rr_status r = Ok tt /\
+    map entry_of_rec (rr_entries r) = map Some (log ++ firstn i batch) /\
+    rr_valid r = frames_len (map rec_of_entry (log ++ firstn i batch)).
+Proof.
+  intros fs log batch j Hl Hb.
+  destruct (wal_read_interrupted_flush fs _ _ j Hl Hb) as (i & Hi & E).
+  rewrite map_length in Hi. exists i. split; [exact Hi|]. cbv zeta. rewrite E. cbn [rr_status rr_entries rr_valid].
+  rewrite firstn_map, <- map_app. split; [reflexivity|]. split; [|reflexivity].
+  rewrite map_map. apply map_ext. intros e. apply entry_of_rec_of_entry.
+Qed.
+Print Assumptions C03_reader_entries.
+
+(* ---- (2) the states ---- *)
+Theorem C03_prefix_state : forall evs y os st m j,
+  hist_ok init_sys evs -> run_events init_sys evs = (SOk y, os) ->
+  is_dml st = true -> stmt_moves_ok (mem y) st -> e_out (run_stmt (mem y) st) = OOk m ->
+  let i := started (op_sizes (mem y) st) j in
+  exists y',
+    step y (EvCrashInLog st j) = (SOk y', None) /\
+    wal y' = wal y ++ firstn j (e_batch (run_stmt (mem y) st)) /\ disk y' = mem y' /\
+    prefix_state (mem y') (run_rows (mem y) st i) /\
+    abs (mem y') = abs (run_rows (mem y) st i).
+Proof.
+  intros evs y os st m j H R Hd Hm Ho. cbv zeta.
+  destruct (crash_in_log y st m j (reachable_inv_c y (ex_intro _ evs (ex_intro _ os (conj H R)))) Hd Hm Ho)
+    as (y' & A & B & C & D & E & _). eauto 10.
+Qed.
+Print Assumptions C03_prefix_state.
+
+(* i grows with j, never exceeds the number of row operations, and i = 0 for j = 0: never a later
+   row without an earlier one *)
+Theorem C03_prefix_monotone : forall sizes j j',
+  (j <= j')%nat -> (started sizes j <= started sizes j' <= length sizes)%nat /\ started sizes 0 = O.
+Proof.
+  intros sizes j j' H. split; [split; [apply started_mono; exact H | apply started_le]|].
+  destruct sizes; reflexivity.
+Qed.
+Print Assumptions C03_prefix_monotone.
+
+(* all records written = the whole statement (C02's case); `run_rows` over all rows is the
+   statement's own result *)
+Theorem C03_all_records : forall evs y os st m j,
+  hist_ok init_sys evs -> run_events init_sys evs = (SOk y, os) ->
+  is_dml st = true -> stmt_moves_ok (mem y) st -> e_out (run_stmt (mem y) st) = OOk m ->
+  (length (e_batch (run_stmt (mem y) st)) <= j)%nat ->
+  exists y', step y (EvCrashInLog st j) = (SOk y', None) /\ seq (mem y') (e_store (run_stmt (mem y) st)).
+Proof.
+  intros evs y os st m j H R Hd Hm Ho Hj.
+  destruct (reachable_inv_c y (ex_intro _ evs (ex_intro _ os (conj H R)))) as (r & Hrep & Hseq & Gr & [Gm Lm]).
+  destruct (redo_stmt r (mem y) st m (mkRel _ _ Hseq Gr Gm) Hd Hm Ho) as (a' & Hr & [S' _ _] & Hfl).
+  cbn [step]. rewrite Ho, Hfl. cbn [is_ok]. unfold recover. cbn [disk wal].
+  rewrite (firstn_all2 _ Hj), (replay_app _ _ _ _ Hrep), Hr.
+  eexists. split; [reflexivity|]. cbn [mem]. eapply seq_trans; [apply seq_flush | exact S'].
+Qed.
+Print Assumptions C03_all_records.
+
+(* the continuation clause: the recovered system satisfies the invariant of C02 again, i.e. a crash
+   inside a log append is an event of the histories (`hist_ok`) of C02's and C03's theorems, and
+   recovery after it is total *)
+Theorem C03_continues : forall evs y os st j,
+  hist_ok init_sys evs -> run_events init_sys evs = (SOk y, os) -> stmt_ok (mem y) st ->
+  exists y1 os1, run_events init_sys (evs ++ [EvCrashInLog st j]) = (SOk y1, os1) /\
+                 hist_ok init_sys (evs ++ [EvCrashInLog st j]).
+Proof.
+  intros evs y os st j H R Hok.
+  assert (HI : Inv y) by (apply reachable_inv_c; exists evs, os; auto).
+  assert (Hstep : exists y1, step y (EvCrashInLog st j) = (SOk y1, None)).
+  { destruct Hok as [Hat Hmv]. cbn [step].
+    destruct (e_flushed (run_stmt (mem y) st)) eqn:Efl.
+    - destruct (flushed_shape _ _ Efl) as [Eok Eb].
+      destruct HI as (r & Hrep & Hseq & Gr & HGL).
+      pose proof (log_stmt (wal y) (mem y) st HGL) as HL. rewrite Eok, Eb, app_nil_r in HL.
+      rewrite Eok, Eb, firstn_nil, app_nil_r. unfold recover. cbn [disk wal].
+      rewrite (replay_inert _ _ (proj1 HL) (proj2 HL)). eauto.
+    - destruct (is_ok (e_out (run_stmt (mem y) st))) eqn:Eok.
+      + destruct (e_out (run_stmt (mem y) st)) as [m| |] eqn:Eo; try discriminate.
+        assert (Hd : is_dml st = true) by (apply (ok_unflushed_is_dml (mem y)); [rewrite Eo; reflexivity | exact Efl]).
+        destruct (crash_in_log y st m j HI Hd Hmv Eo) as (y' & Hst & _). cbn [step] in Hst. rewrite Eo, Efl in Hst.
+        cbn [is_ok]. eauto.
+      + destruct (inv_recover y HI) as (r & _ & Hrec & _). unfold recover in *. cbn [disk wal].
+        destruct (replay (disk y) (wal y)); inversion Hrec; eauto. }
+  destruct Hstep as (y1 & Hs).
+  assert (G : forall evs y0 os0, hist_ok y0 evs -> run_events y0 evs = (SOk y, os0) ->
+              exists os', hist_ok y0 (evs ++ [EvCrashInLog st j]) /\
+                          run_events y0 (evs ++ [EvCrashInLog st j]) = (SOk y1, os')).
+  { clear evs os H R. induction evs as [|ev r IH]; intros y0 os0 Hk Hr.
+    - cbn in Hr. inversion Hr; subst y0. cbn [app hist_ok run_events ev_ok]. rewrite Hs.
+      eexists. split; [split; [exact Hok | exact I] | reflexivity].
+    - cbn [hist_ok] in Hk. destruct Hk as [Hev Hrest]. cbn [run_events] in Hr.
+      destruct (step y0 ev) as [[y2|e|] o] eqn:Es; try discriminate.
+      destruct (run_events y2 r) as [fin os'] eqn:Er. inversion Hr; subst.
+      destruct (IH y2 os' Hrest Er) as (os2 & A & B).
+      cbn [app hist_ok run_events]. rewrite Es, B. eexists. split; [split; [exact Hev | exact A] | reflexivity]. }
+  destruct (G evs init_sys os H R) as (os' & A & B). exists y1, os'. auto.
+Qed.
+Print Assumptions C03_continues.
+
+(* ---- full statement: as C03_prefix_state + C03_continues but for every history (no `hist_ok`)
+   and with the byte layer composed in (the model's EvCrashInLog takes the record count j; the
+   byte-level cut position is related to it by C03_reader_entries, the composition is checked by
+   the differential runs, not stated as one Coq theorem) ---- *)
+Definition C03_full_statement : Prop :=
+  forall evs y os st m j,
+  Forall (fun ev => match ev with EvTornFlush _ => False | _ => True end) evs ->
+  run_events init_sys evs = (SOk y, os) -> e_out (run_stmt (mem y) st) = OOk m ->
+  exists y' i, step y (EvCrashInLog st j) = (SOk y', None) /\ abs (mem y') = abs (run_rows (mem y) st i).
+
+(* ---- non-vacuity ---- *)
+Local Open Scope string_scope.
+Definition ins1 (t : string) (i : nat) : event := EvStmt (SInsert t [] [[VInt (Z.of_nat i)]]).
+
+(* 8 rows, then a 3-row INSERT whose first row splits the root leaf: 4 records
+   [insert; catalog update; insert; insert]; cut after 1 record = between the pair *)
+Definition ex_pre : list event :=
+  EvStmt (SCreateTable "t" [mkColDef "a" STNumeric]) :: map (ins1 "t") (List.seq 0 8).
+Definition ex_stmt : stmt := SInsert "t" [] [[VInt 100]; [VInt 101]; [VInt 102]].
+
+Ltac hist_tac :=
+  vm_compute;
+  repeat (first [ exact I | split | (intros; discriminate) | reflexivity ]).
+
+Example C03_nonvacuous :
+  exists y os, run_events init_sys ex_pre = (SOk y, os) /\ hist_ok init_sys ex_pre /\
+    stmt_moves_ok (mem y) ex_stmt /\ e_out (run_stmt (mem y) ex_stmt) = OOk 3 /\
+    op_sizes (mem y) ex_stmt = [2; 1; 1]%nat /\
+    map (started (op_sizes (mem y) ex_stmt)) [0; 1; 2; 3; 4]%nat = [0; 1; 1; 2; 3]%nat /\
+    (* the half-pair state really differs from the state after one row in a page LSN, and only
+       there: not seq, but the tables agree *)
+    exists y1, step y (EvCrashInLog ex_stmt 1) = (SOk y1, None) /\
+               fclean (forest (mem y1)) <> fclean (forest (run_rows (mem y) ex_stmt 1)) /\
+               abs (mem y1) = abs (run_rows (mem y) ex_stmt 1).
+Proof.
+  destruct (run_events init_sys ex_pre) as [fin os] eqn:E.
+  vm_compute in E. inversion E; subst. eexists _, _. split; [reflexivity|].
+  split; [hist_tac|]. split; [hist_tac|]. split; [vm_compute; reflexivity|].
+  split; [vm_compute; reflexivity|]. split; [vm_compute; reflexivity|].
+  eexists. split; [vm_compute; reflexivity|]. split; [vm_compute; discriminate | vm_compute; reflexivity].
+Qed.
